@@ -156,6 +156,8 @@ func c13(r *core.Run) {
 	}
 	c13HTTP(r)
 	c13Parse(r)
+	// which changes are sent to the model: the audit uses the same bound, the same way, as the diff that scored them
+	thresholdAgreement(r, "C13.BOUND", "/internal/cli")
 }
 
 func c13Whitelist(r *core.Run, v *ssa.Function, W map[string]bool) {
